@@ -235,6 +235,8 @@ for prop, fname, call, keep, kw in FORMS:
 
 add("C09", "c09_read_classification", "c09::read_classification($S)")
 for g in range(6):
+    add("C09", f"c09_write_outcome_g{g}", f"c09::write_outcome($S, {g})", unwind=9)
+for g in range(6):
     if g == 1:
         add("C09", "c09_write_then_probe_g1_enumerated_probe", "c09::write_then_probe_concrete($S, 1)", unwind=9)
     else:
@@ -329,3 +331,5 @@ STUB_ELF = [("crate::elf::read_elf", "crate::harness::c11::ghost_read_elf")]
 for v in (0, 1):
     add("C11", f"c11_load_skeleton_v{v}", f"c11::load_skeleton($S, {v}, false)", stubs=(STUB_ELF,), unwind=44, timeout=5400, mem_gb=24, tier="quick" if v == 0 else "thorough")
     add("C12", f"c12_load_skeleton_v{v}", f"c11::load_skeleton($S, {v}, true)", stubs=(STUB_ELF,), unwind=44, timeout=5400, mem_gb=24)
+
+add("PROBE", "probe_c14_fold", "c14::probe_fold($S)", stubs=INSTR_STUBS, keep=["trapa"], unwind=6)
